@@ -28,22 +28,36 @@ _Bool nondet_bool(void);
 extern size_t verif_g;
 /* ghost: the total length of the labels of the vector being encoded (the same Sigma in the sizing pass and in the encoding pass) */
 extern size_t verif_sum;
+/* ghost: the one element position of an externally supplied vector that the harness makes fully valid */
+extern size_t verif_elem;
 /* ghost call log: the k-th call of a contract stub made by the function under check */
 typedef struct { int fn; const void* p[4]; uint64_t v[4]; const void* ret; const void* retv; uint64_t retval; } verif_call_t;
 extern const void* verif_mark[4];   /* addresses of locals snapshotted by ghost code */
 extern verif_call_t verif_calls[24];
 extern size_t verif_ncalls;
+#ifdef VERIF_NO_CALL_LOG
+#define VERIF_LOG_CALL(F, p0, p1, p2, p3, v0, v1, v2, v3) { }
+#else
 #define VERIF_LOG_CALL(F, p0, p1, p2, p3, v0, v1, v2, v3) { if (verif_ncalls < 24) { verif_calls[verif_ncalls].fn = (F); \
   verif_calls[verif_ncalls].p[0] = (p0); verif_calls[verif_ncalls].p[1] = (p1); verif_calls[verif_ncalls].p[2] = (p2); verif_calls[verif_ncalls].p[3] = (p3); \
   verif_calls[verif_ncalls].v[0] = (v0); verif_calls[verif_ncalls].v[1] = (v1); verif_calls[verif_ncalls].v[2] = (v2); verif_calls[verif_ncalls].v[3] = (v3); } verif_ncalls++; }
+#endif
+#ifdef VERIF_NO_CALL_LOG
+#define VERIF_LOG_RET(r) { }
+#define VERIF_LOG_RETV(r) { }
+#define VERIF_LOG_RETVAL(r) { }
+#else
 #define VERIF_LOG_RET(r) { if (verif_ncalls >= 1 && verif_ncalls <= 24) verif_calls[verif_ncalls - 1].ret = (r); }
 #define VERIF_LOG_RETV(r) { if (verif_ncalls >= 1 && verif_ncalls <= 24) verif_calls[verif_ncalls - 1].retv = (r); }
-#define RETV(k) (verif_calls[k].retv)
 #define VERIF_LOG_RETVAL(r) { if (verif_ncalls >= 1 && verif_ncalls <= 24) verif_calls[verif_ncalls - 1].retval = (r); }
+#endif
+#define RETV(k) (verif_calls[k].retv)
 #define RETVAL(k) (verif_calls[k].retval)
 /* a summarised loop appears in the call log as a pseudo call: fn = -(loop ordinal + 1), p[0] = the container, p[1] = position before, ret = position after */
 #define VERIF_LOG_LOOP(k, cont, before, after) { VERIF_LOG_CALL(-((k) + 1), (const void*)(cont), (const void*)(before), 0, 0, 0, 0, 0, 0) VERIF_LOG_RET((const void*)(after)) }
 #define LOOPED(j, k, cont, pos) (verif_ncalls > (j) && verif_calls[j].fn == -((k) + 1) && ARGP(j, 0) == (const void*)(cont) && ARGP(j, 1) == (const void*)(pos))
+/* a bulk copy (memcpy / std::copy) of n bytes from src to pos is an accepted way of writing n one-byte records */
+#define COPIED(j, pos, src, n) (verif_ncalls > (j) && verif_calls[j].fn == -100 && ARGP(j, 0) == (const void*)(pos) && ARGP(j, 1) == (const void*)(src) && ARGV(j, 2) == (uint64_t)(n))
 /* layout assertions over the call log: the k-th codec call wrote/read value bits at position pos */
 #define WROTE(k, F, bits, pos) (CALLED(k, F) && ARGV(k, 0) == (uint64_t)(bits) && ARGP(k, 1) == (const void*)(pos))
 #define READ(k, F, pos) (CALLED(k, F) && ARGP(k, 0) == (const void*)(pos))
